@@ -46,7 +46,7 @@ HARNESSES = [
     scenarios_thorough=[{'SOP0': 0, 'SOP1': 0, 'NOP': 1}, {'SOP0': 0, 'SOP1': 1, 'NOP': 1},
                         {'SOP0': 0, 'SOP1': 0, 'NOP': 3, 'CTX0': 1, 'NEED0': 1, 'CTX1': 2, 'NEED1': 2},
                         {'SOP0': 0, 'SOP1': 0, 'NOP': 2, 'VAL': 2, 'CTX0': 1, 'NEED0': 1, 'CTX1': 2, 'NEED1': 2}],
-    timeout=900, thorough_override=dict(defines={'NS': 2, 'ROUNDS': 1, 'NEXTRA': 4}, timeout=3600),
+    timeout=900, thorough_override=dict(defines={'NS': 2, 'ROUNDS': 1, 'NEXTRA': 4}, timeout=10800),   # the ticket scenario (NOP 3) took 53 min at load 60
     desc='concurrent_monitor: 2 sleepers vs 1 notifier: notify_all on a shared flag; bounded-queue style tickets (contexts 1,2; notify(ctx<=ticket) after each '
          'increment, NOP 3) ; one notify(ctx<=2) releasing both (NOP 2)',
     bounds={'threads': 3, 'free_rounds': 1, 'forced_rounds': 2, 'unroll': 1,
